@@ -581,7 +581,14 @@ impl Compiler {
                 } else {
                     let taken = self.builder.regex.select(taken_name_ids);
                     let not_taken = self.builder.regex.not(taken);
-                    let valid_ast = self.json_general_unicode_string(0, None)?;
+                    // Same key syntax as json_simple_string(): the exclusion of the taken
+                    // names is textual, so \uXXXX spellings of printable characters must not
+                    // be available unless the option asks for them.
+                    let valid_ast = if self.options.json_allow_general_unicode_escapes {
+                        self.json_general_unicode_string(0, None)?
+                    } else {
+                        self.json_quote(RegexAst::Regex("(?s:.*)".to_string()))
+                    };
                     let valid = self.builder.regex.add_ast(valid_ast)?;
                     let valid_and_not_taken = self.builder.regex.and(vec![valid, not_taken]);
                     self.builder.lexeme(valid_and_not_taken)
